@@ -130,7 +130,7 @@ func markKinds(r *ev.Run, s *sto.Spec) {
 
 func main() {
 	ev.Main("C02", "exploration",
-		"per (backend, ingest path) session: seeded true blobs (sizes 0..64KiB+1, 1MiB in thorough; sha224/sha1/sha256; random/schema/text) each offered as itself and as 8 truncations, 4 extensions, 8 bit flips, 3 permutations, the same bytes under sha1/sha224/sha256 refs of other content, with failing sources, under refs of unknown hash names and under malformed names, before and after the true blob is stored, through 8 source-reader behaviours and 4 HTTP transports; multipart requests naming one ref twice (true bytes and a corruption, both orders); the same small-offer script (blobs at 1MiB-1/1MiB/1MiB+1 = the schema-sniffing cap, file schema blobs) behind every buffering, sniffing or re-routing store over localdisk/diskpacked children that do not re-hash, through receive/put/batch and through the stores' own ReceiveBlob with sources that fail mid-stream, once, after the last byte, or end in ErrCorruptBlob; overlapping offers of ONE ref (a valid one, a corrupt one of the same or another length or with a failing source, sometimes a third) through sources paused by the harness after their last byte or mid-stream, in 4 canonical and seeded schedules, on fresh and stored refs, on every backend through receive and recorder-driven put/batch, with the store probed while all unfinished offers are parked; plus 16MiB-1/16MiB/16MiB+1/16MiB+4KiB sessions on memory, localdisk, diskpacked, encrypt, and (receive, put; batch in thorough) behind every buffering or re-routing store (replica, namespace, proxycache, blobpacked, cond, shard, overlay) over localdisk/diskpacked children that do not re-hash; distinct = (backend, path, mutation, position, reader, transport, ref); every case is non-trivial (an oracle decision on outcome, fetch, stat, enumeration and hub notifications)",
+		"per (backend, ingest path) session: seeded true blobs (sizes 0..64KiB+1, 1MiB in thorough; sha224/sha1/sha256; random/schema/text) each offered as itself and as 8 truncations, 4 extensions, 8 bit flips, 3 permutations, the same bytes under sha1/sha224/sha256 refs of other content, with failing sources, under refs of unknown hash names and under malformed names, before and after the true blob is stored, through 8 source-reader behaviours and 4 HTTP transports; multipart requests naming one ref twice (true bytes and a corruption, both orders); the same small-offer script (blobs at 1MiB-1/1MiB/1MiB+1 = the schema-sniffing cap, file schema blobs) behind every buffering, sniffing or re-routing store over localdisk/diskpacked children that do not re-hash, through receive/put/batch and through the stores' own ReceiveBlob with sources that fail mid-stream, once, after the last byte, or end in ErrCorruptBlob; overlapping offers of ONE ref (a valid one, a corrupt one of the same or another length or with a failing source, sometimes a third) through sources paused by the harness after their last byte or mid-stream, in 4 canonical and seeded schedules, on fresh and stored refs, on every backend through receive and recorder-driven put/batch, with the store probed while all unfinished offers are parked; plus 16MiB-1/16MiB/16MiB+1/16MiB+4KiB sessions on memory, localdisk, diskpacked, encrypt, and (receive, put; batch in thorough) behind every buffering or re-routing store (replica, namespace, proxycache, blobpacked, cond, shard, overlay) over localdisk/diskpacked children that do not re-hash; refs of unknown hash names (14 names, several as long as a supported digest) whose digest IS the sha1/sha224/sha256 of the offered bytes, or the digest of a blob stored under its real ref, at the end of every session; the memory store in cache mode (memory.NewCache(n), n from 64 B to 70000 B, more in thorough) behind receive/put/batch, called directly and through blobserver.ReceiveNoHash (also in front of memory and encrypt), with corrupt offers smaller and larger than the whole cache; the cache fill of proxycache (cache = localdisk, diskpacked, memory, cache-mode memory; origin = localdisk, diskpacked or a harness-owned store) when the origin serves truncated/extended/flipped/permuted/unrelated/over-16MiB bytes under a ref, read once or twice through the proxy, then the origin repaired or the blob dropped, and corrupt uploads through the same proxies; distinct = (backend, path, mutation, position, reader, transport, ref); every case is non-trivial (an oracle decision on outcome, fetch, stat, enumeration and hub notifications)",
 		run)
 }
 
@@ -153,6 +153,9 @@ func run(r *ev.Run) {
 	r.Assume("accepted = nil error from blobserver.Receive / ReceiveBlob, 2xx from PUT, presence in the 'received' list of the batch upload response")
 	r.Assume("a source that fails before delivering all its bytes must not be accepted; a batch part that follows a refused part is not decided (the protocol text is silent)")
 	r.Assume("the 16 MiB cap is decided on blobserver.Receive and the HTTP handlers; pkg/blobserver/interface.go documents that BlobReceiver implementations rely on Receive for the size bound, so a direct ReceiveBlob of an oversize but matching blob is recorded as an observation only")
+	r.Assume("a cache (memory.NewCache) may drop an accepted blob again by its documented LRU rule: in cache-mode sessions an accepted blob that is absent later is recorded, not reported; whatever is present is judged as everywhere else")
+	r.Assume("the cache fill of proxycache on a read miss is an ingest path into the cache store ('for every ingest path and every backend behind it'): the cache store may hold under a ref only bytes that hash to it within the cap; what the proxy returns for a read while the origin is rotten is not judged, only the cache store, its hub, and reads after the origin was repaired or dropped the blob")
+	r.Assume("blobserver.ReceiveNoHash in front of a store that verifies by itself (memory, memory in cache mode, encrypt) is judged like that store called directly, plus the hub notification it sends on success")
 	r.Assume("absence of hub listener notifications is observed after a bounded settle; an unwarranted notification arriving later than that would be missed, never invented")
 	root := ev.Scratch("c02")
 	defer os.RemoveAll(root)
@@ -190,6 +193,9 @@ func run(r *ev.Run) {
 	// round 4 families (appended: the ids of the sessions above stay what they were)
 	jobs = append(jobs, smallWrapJobs(r, &n)...)
 	jobs = append(jobs, overlapJobs(r, base, &n)...)
+	// round 5 families (appended)
+	jobs = append(jobs, cacheModeJobs(r, &n)...)
+	jobs = append(jobs, cacheFillJobs(r, &n)...)
 
 	bd := newBigData(r)
 	var wg sync.WaitGroup
@@ -223,7 +229,7 @@ func run(r *ev.Run) {
 	if os.Getenv("VERIF_ONLY") != "" {
 		return
 	}
-	r.Require("paths", "receive", "put", "batch", "direct", "direct-src")
+	r.Require("paths", "receive", "put", "batch", "direct", "direct-src", "nohash")
 	r.Require("backend_kinds", "memory", "localdisk", "diskpacked", "blobpacked", "encrypt", "replica", "shard", "cond", "overlay", "namespace", "proxycache")
 	r.Require("mutations", "valid", "dup-valid", "trunc", "ext", "flip", "perm", "otherref", "unknown-hash", "malformed-name", "read-error", "dup-corrupt", "at-cap", "oversize", "ext-at-cap")
 	for _, p := range []string{"receive", "put", "batch"} {
@@ -240,6 +246,13 @@ func run(r *ev.Run) {
 	requireWrapped(r)
 	requireSmallWrapped(r)
 	requireOverlap(r)
+	requireCacheMode(r)
+	requireCacheFill(r)
+	for _, p := range []string{"receive", "put", "batch", "direct", "nohash"} {
+		for _, h := range hashNames {
+			r.Require("unknown_hash", p+"/arbitrary-digest", p+"/digest-is-"+h+"-of-bytes")
+		}
+	}
 	r.Require("batch_same_ref_orders", "valid-then-corrupt", "corrupt-then-valid", "valid-then-corrupt/ref-stored-before")
 	r.Require("outcomes", "accepted", "rejected")
 	r.Require("readers", "plain", "1byte", "half", "dataeof", "frag", "zero", "errk", "errk-eofwrap", "gated")
@@ -251,6 +264,10 @@ func run(r *ev.Run) {
 }
 
 func runJob(r *ev.Run, root string, j job, bd *bigData) {
+	if j.mode == "cachefill" {
+		runCacheFill(r, root, j)
+		return
+	}
 	s, err := newSession(r, root, j.id, j.spec, j.path)
 	if err != nil {
 		r.Inconclusive(fmt.Sprintf("session %s: %v", j.id, err))
@@ -400,6 +417,24 @@ func (s *session) script() {
 	// one ref naming two parts of a single request (true bytes and a corruption of them)
 	if s.path == "batch" && !s.dead {
 		s.sameRefBatches(seen)
+	}
+	// refs of unknown hash names whose digest is what a supported function yields for the offered
+	// bytes (own PRNG, placed last: the offers above stay what they were)
+	if !s.dead {
+		urng := s.r.Rand("unknown-match/" + s.id + "/" + s.spec.String() + "/" + s.path)
+		per := s.r.Pick(2, 4)
+		if s.opt.family != "" {
+			per = 1
+		}
+		for _, of := range unknownMatchingOffers(urng, per) {
+			present(of)
+		}
+		// the same digest as a blob that IS stored under its real ref, only the hash name differs
+		tb := genTrue(urng, urng.Intn(3), []int{40, 300, 4097}[urng.Intn(3)], seen)
+		present(validOffer(tb, "valid"))
+		for _, of := range unknownAliasOffers(urng, tb, s.r.Pick(2, 3)) {
+			present(of)
+		}
 	}
 }
 
